@@ -7,9 +7,9 @@ import (
 	"encoding/hex"
 	"fmt"
 	"math/big"
-	"time"
 
 	c4eapp "github.com/chain4energy/c4e-chain/app"
+	cfevesting "github.com/chain4energy/c4e-chain/x/cfevesting"
 	vestingtypes "github.com/chain4energy/c4e-chain/x/cfevesting/types"
 	sdk "github.com/cosmos/cosmos-sdk/types"
 	authtypes "github.com/cosmos/cosmos-sdk/x/auth/types"
@@ -25,6 +25,39 @@ type VType struct {
 	Free18   string `json:"free"` // 18-decimal integer
 	LockupNs int64  `json:"lockup_ns"`
 	VestNs   int64  `json:"vest_ns"`
+	// the units in which the genesis file states the two periods ("" = the largest unit that
+	// divides the period)
+	LockupUnit string `json:"lockup_unit,omitempty"`
+	VestUnit   string `json:"vest_unit,omitempty"`
+}
+
+var unitNs = map[string]int64{"second": secNs, "minute": 60 * secNs, "hour": 3600 * secNs, "day": dayNs}
+
+// genUnit draws one of the genesis period units that represent ns exactly.
+func genUnit(t *rapid.T, label string, ns int64) string {
+	var ok []string
+	for _, u := range []string{"second", "minute", "hour", "day"} {
+		if ns%unitNs[u] == 0 {
+			ok = append(ok, u)
+		}
+	}
+	if len(ok) == 0 {
+		return ""
+	}
+	return ok[rapid.IntRange(0, len(ok)-1).Draw(t, label)]
+}
+
+// GenesisForm returns the vesting type the way a genesis file states it (value and unit per period).
+func (vt VType) GenesisForm() vestingtypes.GenesisVestingType {
+	conv := func(ns int64, unit string) (int64, string) {
+		if u, ok := unitNs[unit]; ok && ns%u == 0 {
+			return ns / u, unit
+		}
+		return wholeUnits(ns)
+	}
+	lp, lu := conv(vt.LockupNs, vt.LockupUnit)
+	vp, vu := conv(vt.VestNs, vt.VestUnit)
+	return vestingtypes.GenesisVestingType{Name: vt.Name, LockupPeriod: lp, LockupPeriodUnit: lu, VestingPeriod: vp, VestingPeriodUnit: vu, Free: dec18(vt.Free18)}
 }
 
 var freePool = []string{"0", "1", "50000000000000000", "333333333333333333", "500000000000000000", "999999999999999999", "1000000000000000000", "100000000000000000", "150000000000000000"}
@@ -42,9 +75,12 @@ func GenVTypes(t *rapid.T) []VType {
 		} else {
 			free = fmt.Sprint(rapid.Int64Range(0, 1_000_000_000_000_000_000).Draw(t, l+"_fu"))
 		}
-		out = append(out, VType{Name: fmt.Sprintf("vt%d", i), Free18: free,
+		vt := VType{Name: fmt.Sprintf("vt%d", i), Free18: free,
 			LockupNs: vtDurPool[rapid.IntRange(0, len(vtDurPool)-1).Draw(t, l+"_lock")],
-			VestNs:   vtDurPool[rapid.IntRange(0, len(vtDurPool)-1).Draw(t, l+"_vest")]})
+			VestNs:   vtDurPool[rapid.IntRange(0, len(vtDurPool)-1).Draw(t, l+"_vest")]}
+		vt.LockupUnit = genUnit(t, l+"_lockUnit", vt.LockupNs)
+		vt.VestUnit = genUnit(t, l+"_vestUnit", vt.VestNs)
+		out = append(out, vt)
 	}
 	return out
 }
@@ -62,9 +98,24 @@ func NewVestWorld(vts []VType) *VestWorld {
 	w, ctx := Case()
 	v := &VestWorld{W: w, App: w.App, Ctx: ctx, NowNs: T0.UnixNano() + secNs, VTypes: vts, fresh: 1000}
 	v.Ctx = v.Ctx.WithBlockTime(nsTime(v.NowNs))
-	for _, vt := range vts {
-		v.App.CfevestingKeeper.SetVestingType(v.Ctx, vestingtypes.VestingType{Name: vt.Name, Free: dec18(vt.Free18),
-			LockupPeriod: time.Duration(vt.LockupNs), VestingPeriod: time.Duration(vt.VestNs)})
+	if len(vts) > 0 {
+		// vesting types reach a chain only through the module's genesis import (value and unit per
+		// period), so that is how they are installed here: the case's exported vesting genesis with
+		// the drawn types added, imported through the real InitGenesis
+		gs := cfevesting.ExportGenesis(v.Ctx, v.App.CfevestingKeeper)
+		for _, vt := range vts {
+			kept := gs.VestingTypes[:0]
+			for _, g := range gs.VestingTypes {
+				if g.Name != vt.Name {
+					kept = append(kept, g)
+				}
+			}
+			gs.VestingTypes = append(kept, vt.GenesisForm())
+		}
+		if err := gs.Validate(); err != nil {
+			panic(fmt.Sprintf("harness: vesting genesis with generated types does not validate: %v", err))
+		}
+		cfevesting.InitGenesis(v.Ctx, v.App.CfevestingKeeper, *gs, v.App.AccountKeeper, v.App.BankKeeper, v.App.StakingKeeper)
 	}
 	return v
 }
